@@ -7,7 +7,8 @@ name the statement reads is defined — builtin, session name, or bound earlier 
 `tame`: every `del` so far is one Python can execute) and what the CODE decides (`decs`: keep | offer to command
 interpretation | builtin_cmd, one verdict per `is_in_scope` test).  `env.fx = Fixes.none` is the code as it is.
 -/
-import XonshVerif.Lemmas.ScopeWalk
+import XonshVerif.Lemmas.ScopeAll
+import XonshVerif.Lemmas.ScopeShape
 import XonshVerif.Gen.ExecerOrder
 open Scope
 
@@ -27,6 +28,11 @@ theorem C02_python_wins_partial (B U : List Name) (p : Stmts) (r : Rec) (hr : r 
     (hok : r.ok = true) (ht : r.tame = true) (hg : r.g = true) : ∀ d ∈ r.decs, d.v ≠ Verdict.offer :=
   C02_python_wins_gen ⟨B, U, Fixes.none⟩ p r hr hok ht hg
 
+/-- C02 at full strength for the transformer with the nine mechanisms repaired (`Fixes.all`): no guard is left. -/
+theorem C02_python_wins_repaired (B U : List Name) (p : Stmts) (r : Rec) (hr : r ∈ run ⟨B, U, Fixes.all⟩ p)
+    (hok : r.ok = true) (ht : r.tame = true) : ∀ d ∈ r.decs, d.v ≠ Verdict.offer :=
+  C02_python_wins_gen ⟨B, U, Fixes.all⟩ p r hr hok ht ((runL_gAll B U p (St.init _) rfl).1 r hr)
+
 /-- the `user_names` shield: a bare name that the session or the source binds is never rewritten into a lookup in `builtins` -/
 theorem C02_user_name_shield (env : Env) (p : Stmts) (r : Rec) (hr : r ∈ run env p)
     (hs : r.shadow = true) (ht : r.tame = true) (hg : r.g = true) : ∀ d ∈ r.decs, d.v ≠ Verdict.builtin := by
@@ -42,6 +48,125 @@ theorem C02_store_same_stmt (env : Env) (c : Ctxs) (e : Expr)
   rcases h x hx with h1 | h1
   · simp [h1]
   · simp [h1]
+
+/-! ## scopes end, `del` returns a name to command interpretation -/
+
+/-- an expression statement that reads a name no context records (and that is not a builtin) is offered to command interpretation -/
+theorem offered_of_unrecorded (env : Env) (st : St) (sid : Nat) (e : Expr) (x : Name)
+    (hv : st.c.vis x = false) (hB : x ∉ env.B) (hl : x ∈ loads e) (hs : x ∉ stores env.fx.lam e) (hw : x ∉ allW e)
+    (hlam : isLam e = false) :
+    ∃ r ∈ (runS env st (.expr sid e)).1, (⟨0, Verdict.offer⟩ : Dec) ∈ r.decs := by
+  simp only [runS]
+  refine ⟨_, List.mem_singleton.mpr rfl, ?_⟩
+  simp only [xExprStmt, List.mem_append, List.mem_singleton]
+  right
+  have hv0 : (preW env st.c (allW e)).vis x = false := by
+    unfold preW; split
+    · cases h : (st.c.addTop (allW e)).vis x with
+      | false => rfl
+      | true => rcases (vis_addTop _ _ x).mp h with h1 | h1
+                · exact absurd h1 hw
+                · rw [hv] at h1; cases h1
+    · exact hv
+  have hbb : bareBuiltin env (preW env st.c (allW e)) e = false := by
+    cases e with
+    | name y =>
+      simp only [loads, List.mem_singleton] at hl; subst hl
+      simp [bareBuiltin, hB]
+    | const _ => simp [loads] at hl
+    | _ => simp [bareBuiltin]
+  have hin : inScope env (preW env st.c (allW e)) [] e = false := by
+    cases h : inScope env (preW env st.c (allW e)) [] e with
+    | false => rfl
+    | true =>
+      simp only [inScope, List.all_eq_true] at h
+      have := h x hl
+      simp [hs, hv0] at this
+  simp [hbb, hin, hlam]
+
+/-- names recorded only inside a function body (parameters, locals, nested definitions) are not visible after it: whatever
+no context recorded before the `def`, other than the function's own name, a walrus target of its header and names its body
+declares `global`, no context records afterwards — at ANY nesting depth of the body -/
+theorem C02_scope_pop (env : Env) (st : St) (sid : Nat) (f : Name) (ps : List Name) (dfl : Exprs) (body : Stmts) (decos : Exprs)
+    (x : Name) (hv : st.c.vis x = false) (hf : x ≠ f) (hw : x ∉ allWL (dfl.append decos)) (hg : x ∉ globAddsL body) :
+    (runS env st (.fdef sid f ps dfl body decos)).2.c.vis x = false := by
+  cases h : (runS env st (.fdef sid f ps dfl body decos)).2.c.vis x with
+  | false => rfl
+  | true =>
+    rcases (runS_shape env (.fdef sid f ps dfl body decos) st).vis x h with h1 | h1 | h1
+    · rw [hv] at h1; cases h1
+    · simp only [topAdds, List.mem_cons] at h1
+      rcases h1 with h1 | h1
+      · exact absurd h1 hf
+      · exact absurd h1 hw
+    · simp only [globAdds] at h1; exact absurd h1 hg
+
+/-- … and the same for a class body -/
+theorem C02_scope_pop_class (env : Env) (st : St) (sid : Nat) (cn : Name) (bases : Exprs) (body : Stmts) (decos : Exprs)
+    (x : Name) (hv : st.c.vis x = false) (hf : x ≠ cn) (hw : x ∉ allWL (bases.append decos)) (hg : x ∉ globAddsL body) :
+    (runS env st (.cdef sid cn bases body decos)).2.c.vis x = false := by
+  cases h : (runS env st (.cdef sid cn bases body decos)).2.c.vis x with
+  | false => rfl
+  | true =>
+    rcases (runS_shape env (.cdef sid cn bases body decos) st).vis x h with h1 | h1 | h1
+    · rw [hv] at h1; cases h1
+    · simp only [topAdds, List.mem_cons] at h1
+      rcases h1 with h1 | h1
+      · exact absurd h1 hf
+      · exact absurd h1 hw
+    · simp only [globAdds] at h1; exact absurd h1 hg
+
+/-- hence a command-looking line after the `def` that reads such a name is offered to command interpretation -/
+theorem C02_scope_pop_offers (env : Env) (st : St) (sid sid' : Nat) (f : Name) (ps : List Name) (dfl : Exprs) (body : Stmts)
+    (decos : Exprs) (e : Expr) (x : Name) (hv : st.c.vis x = false) (hf : x ≠ f) (hw : x ∉ allWL (dfl.append decos))
+    (hg : x ∉ globAddsL body) (hB : x ∉ env.B) (hl : x ∈ loads e) (hs : x ∉ stores env.fx.lam e) (hwe : x ∉ allW e)
+    (hlam : isLam e = false) :
+    ∃ r ∈ (runS env (runS env st (.fdef sid f ps dfl body decos)).2 (.expr sid' e)).1, (⟨0, Verdict.offer⟩ : Dec) ∈ r.decs :=
+  offered_of_unrecorded env _ sid' e x (C02_scope_pop env st sid f ps dfl body decos x hv hf hw hg) hB hl hs hwe hlam
+
+/-- `del x` returns later lines to command interpretation: if after the `del` no context records x any more ("x not otherwise
+bound": it was recorded once), then after ANY statements `mid` that do not record x (no binding of x at this level, no
+`global x` anywhere inside), an expression statement reading x is offered to command interpretation -/
+theorem C02_del_returns (env : Env) (st : St) (x : Name) (sid₁ sid₂ : Nat) (mid : Stmts) (e : Expr)
+    (hB : x ∉ env.B)
+    (hone : (runS env st (.del sid₁ [x] [])).2.c.vis x = false)
+    (hmidT : x ∉ topAddsL mid) (hmidG : x ∉ globAddsL mid)
+    (hl : x ∈ loads e) (hs : x ∉ stores env.fx.lam e) (hwe : x ∉ allW e) (hlam : isLam e = false) :
+    ∃ r ∈ (runS env (runL env (runS env st (.del sid₁ [x] [])).2 mid).2 (.expr sid₂ e)).1, (⟨0, Verdict.offer⟩ : Dec) ∈ r.decs := by
+  refine offered_of_unrecorded env _ sid₂ e x ?_ hB hl hs hwe hlam
+  cases h : (runL env (runS env st (.del sid₁ [x] [])).2 mid).2.c.vis x with
+  | false => rfl
+  | true =>
+    rcases (runL_shape env mid _).vis x h with h1 | h1 | h1
+    · rw [hone] at h1; cases h1
+    · exact absurd h1 hmidT
+    · exact absurd h1 hmidG
+
+/-- the hypothesis "not otherwise bound" holds whenever x is recorded in ONE context only (here: the current one) -/
+theorem C02_del_single_record (env : Env) (c : Ctxs) (x : Name) (hx : x ∈ c.top)
+    (hother : ∀ l ∈ c.levels.tail, x ∉ l) (hbase : x ∉ c.base) : (c.remove env x).vis x = false := by
+  obtain ⟨b, g, i⟩ := c
+  cases i with
+  | nil =>
+    simp only [Ctxs.top] at hx
+    simp only [Ctxs.remove, removeInner, contains_iff.mpr hx, if_true]
+    split <;> simp [Ctxs.vis, hbase] <;> exact hbase
+  | cons t r =>
+    simp only [Ctxs.top] at hx
+    simp only [Ctxs.levels, List.cons_append, List.tail_cons] at hother
+    simp only [Ctxs.remove, removeInner_top t r x hx]
+    have hr : ∀ l ∈ r, x ∉ l := fun l hl => hother l (List.mem_append.mpr (Or.inl hl))
+    have hg : x ∉ g := hother g (List.mem_append.mpr (Or.inr (List.mem_singleton.mpr rfl)))
+    cases h : Ctxs.vis ⟨b, g, t.filter (· != x) :: r⟩ x with
+    | false => rfl
+    | true =>
+      rw [vis_iff] at h
+      rcases h with ⟨l, hl, hxl⟩ | h | h
+      · rcases List.mem_cons.mp hl with e | e
+        · subst e; exact absurd rfl (mem_filter_ne.mp hxl).2
+        · exact absurd hxl (hr l e)
+      · exact absurd h hg
+      · exact absurd h hbase
 
 /-! ## witnesses.  Names: 0 = `ls`, 1 = `l`, 2 = `os`, 3 = `n`, 4 = `q`, 5 = `x`, 6 = `id` (a builtin), 7 = `z` -/
 
@@ -80,6 +205,10 @@ def pDelSess : Stmts := .cons (.assign 0 (.cons (.name 5) .nil) (.const false)) 
 def pDelSeq : Stmts := .cons (.assign 0 (.cons (.name 5) .nil) (.const false)) (.cons (.del 1 [] [5]) (.cons (.expr 2 (bin (nm 5) (nm 7))) .nil))
 /-- `x = 1; del x; x -z`: back to command interpretation -/
 def pDelReturns : Stmts := .cons (.assign 0 (.cons (.name 5) .nil) (.const false)) (.cons (.del 1 [5] []) (.cons (.expr 2 (bin (nm 5) (nm 7))) .nil))
+/-- `x = 1; try: del x; except id as x: x -z` -/
+def pExcept : Stmts := .cons (.assign 0 (.cons (.name 5) .nil) (.const false))
+  (.cons (.try_ 1 (.cons (.del 2 [5] []) .nil) (.cons 3 (.cons (nm 6) .nil) (some 5) (.cons (.expr 4 (bin (nm 5) (nm 7))) .nil) .nil) .nil .nil) .nil)
+def delReadAt (rs : List Rec) (sid : Nat) : Bool := rs.any fun r => r.sid == sid && r.tame && !r.delRead.isEmpty
 /-- `def ls(l): ls -l` then `ls -l` outside: inside Python, outside (l is gone) a command -/
 def pScope : Stmts := .cons (.fdef 0 0 [1] .nil (.cons (.expr 1 (bin (nm 0) (nm 1))) .nil) .nil) (.cons (.expr 2 (bin (nm 0) (nm 1))) .nil)
 end C02w
@@ -89,6 +218,15 @@ open C02w
 theorem's hypotheses — and the same text with the names unbound IS offered (the verdict is not constant) -/
 example : (run (code []) pBound).any (fun r => r.sid == 2 && r.ok && r.tame && r.g && !r.decs.isEmpty) = true ∧
     offered (run (code []) pBound) 2 = false ∧ offered (run (code []) pUnbound) 2 = true := by decide
+
+/-- non-vacuity of C02_user_name_shield: a bare `id` is rewritten to `builtin_cmd('id')` — unless the session has a variable `id` -/
+example : (run (code []) (.cons (.expr 0 (nm 6)) .nil)).map (·.decs) = [[⟨0, .builtin⟩]] ∧
+    (run (code [6]) (.cons (.expr 0 (nm 6)) .nil)).map (fun r => (r.shadow, r.decs)) = [(true, [⟨0, .keep⟩])] := by decide
+
+/-- non-vacuity of C02_python_wins_repaired: on every witness below the repaired transformer keeps what the property says is bound -/
+example : ([(pDotted, [], 1), (pWalrus, [7], 0), (pWalrusStmt, [], 1), (pLambda, [7], 0), (pComp, [7], 0), (pNested, [7], 1),
+    (pDelBuiltin, [6, 7], 1), (pExcept, [7], 4)] : List (Stmts × List Name × Nat)).all
+      (fun w => okAt (run ⟨B, w.2.1, Fixes.all⟩ w.1) w.2.2 && !offered (run ⟨B, w.2.1, Fixes.all⟩ w.1) w.2.2) = true := by decide
 
 /-- THE FULL STATEMENT IS FALSE for the code as it is — one witness per mechanism.
 `import os.path` records the string "os.path", not `os`: a following `os.sep` is offered to command interpretation. -/
@@ -106,6 +244,23 @@ theorem C02_cex_nested_target : okAt (run (code [7]) pNested) 1 = true ∧ offer
 /-- `del id` with a session variable `id` strikes the builtin's only record -/
 theorem C02_cex_del_builtin : okAt (run (code [6, 7]) pDelBuiltin) 1 = true ∧ offered (run (code [6, 7]) pDelBuiltin) 1 = true := by decide
 
+/-- an `except … as x` name is recorded when the `try` is entered: a `del x` in the body strikes it -/
+theorem C02_cex_except_name : okAt (run (code [7]) pExcept) 4 = true ∧ offered (run (code [7]) pExcept) 4 = true := by decide
+
+/-- "deleting the name returns later lines to command interpretation" is false for the code as it is when the name is recorded
+twice: session variable x, `x = 2; del x; x -z` — the property sends the last line back to command interpretation
+(`delRead`), the code keeps it -/
+theorem C02_cex_del_session_record :
+    delReadAt (run (code [5, 7]) pDelSess) 2 = true ∧ offered (run (code [5, 7]) pDelSess) 2 = false := by decide
+/-- … and when the target is written `del (x,)` -/
+theorem C02_cex_del_sequence_target :
+    delReadAt (run (code [7]) pDelSeq) 2 = true ∧ offered (run (code [7]) pDelSeq) 2 = false := by decide
+
+/-- non-vacuity of C02_del_returns / C02_scope_pop: `x = 1; del x; x -z` is offered again (and was kept before the `del`);
+`def ls(l): ls -l` keeps the line inside the body and offers the same text after it -/
+example : delReadAt (run (code [7]) pDelReturns) 2 = true ∧ offered (run (code [7]) pDelReturns) 2 = true ∧
+    offered (run (code []) pScope) 1 = false ∧ offered (run (code []) pScope) 2 = true := by decide
+
 /-- every one of these disappears when exactly that mechanism is repaired (what the harness uses to attribute a failure) -/
 example : offered (run ⟨B, [], { Fixes.none with dotted := true }⟩ pDotted) 1 = false ∧
     offered (run ⟨B, [7], { Fixes.none with walrus := true }⟩ pWalrus) 0 = false ∧
@@ -113,7 +268,10 @@ example : offered (run ⟨B, [], { Fixes.none with dotted := true }⟩ pDotted) 
     offered (run ⟨B, [7], { Fixes.none with lam := true }⟩ pLambda) 0 = false ∧
     offered (run ⟨B, [7], { Fixes.none with comp := true }⟩ pComp) 0 = false ∧
     offered (run ⟨B, [7], { Fixes.none with nested := true }⟩ pNested) 1 = false ∧
-    offered (run ⟨B, [6, 7], { Fixes.none with delB := true }⟩ pDelBuiltin) 1 = false := by decide
+    offered (run ⟨B, [6, 7], { Fixes.none with delB := true }⟩ pDelBuiltin) 1 = false ∧
+    offered (run ⟨B, [7], { Fixes.none with handler := true }⟩ pExcept) 4 = false ∧
+    offered (run ⟨B, [5, 7], { Fixes.none with delSess := true }⟩ pDelSess) 2 = true ∧
+    offered (run ⟨B, [7], { Fixes.none with delSeq := true }⟩ pDelSeq) 2 = true := by decide
 
 /-! ## "the decision is made for the whole input before anything runs" -/
 
